@@ -1048,6 +1048,9 @@ def changed_in_place_stream(ctx, n):
                 i, d = rng.choice(used), rng.randrange(M["dim"])
                 target = rng.choice(["reference", "source"])
                 P = (b if target == "reference" else a).domain.points
+                if not P.flags.writeable:
+                    ctx.count("c03:changed in place: skipped (the generated point array is write-protected)")
+                    continue
                 P[i, d] += 1000.0 * max(1.0, float(np.max(np.abs(P))))
                 second = compare_impl(a, b)
                 eq2, eq3 = bool(a.domain.equals(b.domain)), bool(b.domain.equals(a.domain))
